@@ -362,6 +362,10 @@ def classify(h, r, known):
         return "inconclusive", [r["status"] + ": " + r.get("detail", "")[-400:]]
     unwind = [c for c in r["failed_checks"] if "unwinding assertion" in c]
     real = [c for c in r["failed_checks"] if "unwinding assertion" not in c]
+    # a reachable construct Kani cannot model (foreign function without stub, inline asm, ...) is a limit of the
+    # encoding, not a property violation: inconclusive unless a genuine assertion fails as well
+    unsupported = [c for c in real if "not currently supported by Kani" in c or "is not supported by Kani" in c]
+    real = [c for c in real if c not in unsupported]
     kf = [k for k in known if k.get("status") == "known" and k["harness"] == h["name"]]
     if r["status"] == "FAILED" and not r["failed_checks"] and r["undetermined"]:
         return "inconclusive", ["undetermined checks"]
@@ -372,6 +376,8 @@ def classify(h, r, known):
         if unwind:
             return "inconclusive", unwind
         return "known", real
+    if unsupported:
+        return "inconclusive", ["the code reaches a construct the encoder cannot model: " + "; ".join(unsupported[:3])]
     if unwind:
         return "inconclusive", ["unwinding bound too small: " + "; ".join(unwind[:3])]
     if r["status"] == "FAILED":
